@@ -304,6 +304,7 @@ func (l *loopback) send(msg []byte) (got [][]byte, problem string) {
 }
 
 var c07Points int
+var c07PrevMsg []byte
 
 // c07Point runs one constructor call on the implementation: signature for the tie, oracle entries.
 func c07Point(buf []int32, kind string, a, b, c int, mv *midiView) (sig []int32, oracle []string) {
@@ -324,6 +325,17 @@ func c07Point(buf []int32, kind string, a, b, c int, mv *midiView) (sig []int32,
 	for _, x := range m {
 		buf = append(buf, int32(x))
 	}
+	// the caller appends to the message it got earlier (bytes concatenated for one Send): the message constructed
+	// after it must not change
+	if c07PrevMsg != nil && len(m) > 0 {
+		cp := append([]byte(nil), m...)
+		_ = append(c07PrevMsg[:len(c07PrevMsg)], 0xAA, 0xBB, 0xCC, 0xDD)
+		if string(cp) != string(m) {
+			bad("appending to the message constructed before overwrote this one: % X became % X (results share a backing array with spare capacity)", cp, []byte(m))
+			copy(m, cp)
+		}
+	}
+	c07PrevMsg = m
 	retain(kind, m)
 	if c07Points%16 == 3 {
 		// the caller writes into the message it got, then asks for the same message again
